@@ -390,6 +390,42 @@ func queuedRun(run int, dir string, nclients, nreqs, nfaults int, rec *qwRecorde
 			mu.Unlock()
 		}
 	}
+	// a storm on ONE node before the paced phase: many clients post single-statement requests with no pause, so
+	// that requests overlap inside Queue.Write (sequence number and position in the queue are taken together)
+	{
+		n := c.nodes[rng.Intn(len(c.nodes))]
+		var swg sync.WaitGroup
+		for g := 0; g < 24; g++ {
+			swg.Add(1)
+			go func(g int) {
+				defer swg.Done()
+				inst := qwPrefix + n.ID
+				for k := 0; k < 120; k++ {
+					rq := int(reqID.Add(1))
+					body := []string{fmt.Sprintf("INSERT INTO qw(node, req, k, n) VALUES('%s', %d, 1, 1)", n.ID, rq)}
+					resp, err := n.httpSQL("execute", "queue", body)
+					mu.Lock()
+					st.Requests++
+					mu.Unlock()
+					if err != nil {
+						emit(inst, "c.fail", "req", rq, "err", err.Error())
+						continue
+					}
+					var qr qwResp
+					if resp.Status != 200 || json.Unmarshal(resp.Body, &qr) != nil {
+						emit(inst, "c.reject", "req", rq, "status", resp.Status)
+						continue
+					}
+					seq, _ := qr.SequenceNumber.Int64()
+					mu.Lock()
+					st.Status200++
+					mu.Unlock()
+					emit(inst, "c.accept", "req", rq, "seq", seq)
+				}
+			}(g)
+		}
+		swg.Wait()
+	}
 	for ci := 0; ci < nclients; ci++ {
 		wg.Add(1)
 		go func(ci int) {
